@@ -749,6 +749,63 @@ example :
     truncateStop [[0x61, 0x62], [0x63], [0x64]] [0x62, 0x63, 0x64] = ([[0x61]], true) ∧
     cacheKeep 7 3 1 true = 5 := by decide
 
+/-! ### 5c-3. an EMPTY stop string (outside `StopsOk`): nothing is ever streamed -/
+
+theorem indexOf_nil (seq : Bytes) : indexOf [] seq = some 0 := by
+  cases seq <;> simp [indexOf]
+
+/-- **The empty stop.**  `strings.Index(s, "") = 0`: with `""` among the stops the repaired `FindStop` finds a stop at
+    offset 0 of the very first piece, `TruncateStop` keeps nothing, and the run ends: for every script and limit the
+    streamed text is empty (the property's reading: the generated text "contains" `""` at its very beginning, the
+    output ends immediately before it).  Covers the stop lists `StopsOk` excludes because of an empty member. -/
+theorem empty_stop_streams_nothing (limit : Int) (stops : List Bytes) (evs : List Ev) (hmem : ([] : Bytes) ∈ stops) :
+    (run false limit stops init evs).outText = [] := by
+  let Inv : St → Prop := fun st => st.out.flatten = [] ∧ st.pending = []
+  have hflush : ∀ st : St, st.out.flatten = [] → st.pending.flatten = [] → st.flush.out.flatten = [] := by
+    intro st ho hp
+    rw [flush_out, ho, flushText, hp]
+    rfl
+  have hnone : ∀ seq : Bytes, findStopV false seq stops ≠ none := by
+    intro seq h
+    exact findStopV_none h [] hmem ⟨[], seq, by simp⟩
+  have hstep : ∀ st p, Inv st → (stepPiece false stops st p).out.flatten = [] ∧
+      (stepPiece false stops st p).done.isSome = true := by
+    intro st p ⟨ho, hp⟩
+    rcases stepPiece_cases false stops st p with ⟨s, hs, h⟩ | ⟨hn, _, _⟩ | ⟨hn, _, _, _⟩
+    · have hs' : findStopEarliest (st.push p).pending.flatten stops = some s := by
+        simpa [findStopV] using hs
+      obtain ⟨_, i, hi, hmin⟩ := findStopEarliest_spec hs'
+      have hi0 : i = 0 := by
+        have := hmin [] hmem 0 (indexOf_nil _)
+        omega
+      subst hi0
+      rw [h]
+      refine ⟨?_, by simp⟩
+      rw [finish_out]
+      apply hflush
+      · exact ho
+      · show (truncateStop (st.push p).pending s).1.flatten = []
+        rw [truncateStop_flatten hi]; rfl
+    · exact absurd hn (hnone _)
+    · exact absurd hn (hnone _)
+  refine run_ind (pinned := false) (limit := limit) (stops := stops) (Inv := Inv)
+    (Post := fun f => f.out.flatten = []) ?_ ?_ ?_ ?_ ?_ evs init ⟨rfl, rfl⟩
+  · intro st hi _; exact hi.1
+  · intro st hi _; rw [finish_out]; exact hflush st hi.1 (by rw [hi.2]; rfl)
+  · intro st hi _
+    rw [finish_out]
+    exact hflush { st with numPredicted := st.numPredicted + 1 } hi.1 (by show st.pending.flatten = []; rw [hi.2]; rfl)
+  · intro st p hi _ _; exact (hstep st p hi).1
+  · intro st p hi _ hd
+    rw [(hstep st p hi).2] at hd
+    cases hd
+
+/-- non-vacuity / what it looks like: stops `["x", ""]`, pieces `"a" "b"` then EOS: the first token ends the run with
+    reason stop and nothing streamed -/
+example :
+    let f := run false 0 [[0x78], []] init [Ev.piece [0x61], Ev.piece [0x62], Ev.eos]
+    f.out = [] ∧ f.done = some .stop ∧ f.numPredicted = 1 ∧ f.cause = some (.stopString []) := by decide
+
 /-! ### 5d. one level up: the `completion` HTTP handler and the client -/
 
 /-- **What the client receives.**  For the handler's lines of any finished or cancelled run: the
